@@ -136,6 +136,13 @@ def evalSparse (st : DState) (name : String) (t : List String) (impl : String) :
     -- try_from_iter: universe = last + 1, multiset mode; the last value is re-inserted at the end
     let n := match vals.getLast? with | some l => l + 1 | none => 0
     buildWith n true vals "sp.from_iter"
+  | ["from_skip", src, k] =>
+    (match st.sps[src]? with
+     | some o =>
+       let vals := o.vals.drop (num k)
+       let n := match vals.getLast? with | some l => l + 1 | none => 0
+       buildWith n true vals "sp.from_skip"
+     | none => { st := st, model := "panic:no-object" })
   | [op, src] =>
     if op == "copy_of" || op == "from" then
       match refSet st src with
